@@ -28,6 +28,7 @@ import (
 	"sync/atomic"
 	"syscall"
 	"testing"
+	"time"
 
 	kit "github.com/synnaxlabs/synnax/internal/verifkit"
 	"github.com/synnaxlabs/synnax/pkg/distribution/ontology"
@@ -70,6 +71,10 @@ type Op struct {
 type Script struct {
 	IDs []IDSpec `json:"ids"`
 	Ops []Op     `json:"ops"`
+	// FailRelIndex: the scan that populates the relationship indexes when the ontology is opened
+	// is refused by the store; the indexes stay invalid and every lookup that would use them
+	// falls back to scanning the relationship table.
+	FailRelIndex bool `json:"fail_rel_index,omitempty"`
 }
 
 var (
@@ -296,6 +301,7 @@ var (
 
 func genScript(t *rapid.T) Script {
 	var sc Script
+	sc.FailRelIndex = rare(t, "fail-rel-index", 6)
 	n := rapid.IntRange(3, 8).Draw(t, "nids")
 	var pool []IDSpec
 	for _, ty := range poolTypes {
@@ -713,6 +719,36 @@ func (t *refuseCommitTx) Commit(ctx context.Context, opts ...any) error {
 	return t.Tx.Commit(ctx, opts...)
 }
 
+type failRelPopulateDB struct {
+	kv.DB
+	armed atomic.Bool
+	fired atomic.Bool
+}
+
+var errPopulate = stderrors.New("verif: populate scan refused")
+
+func (f *failRelPopulateDB) OpenIterator(opts kv.IteratorOptions) (kv.Iterator, error) {
+	if f.armed.Load() && strings.Contains(string(opts.LowerBound), "Relationship") && calledFrom("runPopulate") && f.armed.CompareAndSwap(true, false) {
+		f.fired.Store(true)
+		return nil, errPopulate
+	}
+	return f.DB.OpenIterator(opts)
+}
+
+func calledFrom(fn string) bool {
+	pc := make([]uintptr, 48)
+	frames := runtime.CallersFrames(pc[:runtime.Callers(2, pc)])
+	for {
+		fr, more := frames.Next()
+		if strings.Contains(fr.Function, fn) {
+			return true
+		}
+		if !more {
+			return false
+		}
+	}
+}
+
 type sut struct {
 	refuse *refuseCommitDB
 	ctx   context.Context
@@ -1023,7 +1059,9 @@ func execute(sc Script, rep *kit.Report) (ret error) {
 	}
 	n := len(s.ids)
 	norm := func(i int) int { return ((i % n) + n) % n }
-	s.refuse = &refuseCommitDB{DB: memkv.New()}
+	failPop := &failRelPopulateDB{DB: memkv.New()}
+	failPop.armed.Store(sc.FailRelIndex)
+	s.refuse = &refuseCommitDB{DB: failPop}
 	s.db = gorp.Wrap(s.refuse)
 	otg, err := ontology.Open(ctx, ontology.Config{DB: s.db})
 	if err != nil {
@@ -1031,6 +1069,20 @@ func execute(sc Script, rep *kit.Report) (ret error) {
 		return kit.Fail("setup", "ontology.Open: %v", err)
 	}
 	s.otg = otg
+	if sc.FailRelIndex {
+		// let the populate goroutine meet its refusal before the history starts
+		for i := 0; i < 2000 && !failPop.fired.Load(); i++ {
+			runtime.Gosched()
+			if i > 100 {
+				time.Sleep(50 * time.Microsecond)
+			}
+		}
+		if failPop.fired.Load() {
+			rep.Class("relationship-index-failed-to-populate")
+		} else {
+			rep.Class("relationship-index-populate-scan-not-seen")
+		}
+	}
 	types := map[string]bool{}
 	for _, spec := range sc.IDs {
 		if !types[spec.T] {
